@@ -8,7 +8,7 @@ import (
 
 func TestC04(t *testing.T) {
 	st := StatsFor("C04")
-	mode := TreeGenMode{Help: 0, Bad: 0, Garbage: 1, Version: 0, Mutate: 2, Policies: false}
+	mode := TreeGenMode{Help: 0, Bad: 0, Garbage: 1, Version: 0, Mutate: 2, Policies: false, SubVersion: true}
 	rapid.Check(t, func(rt *rapid.T) {
 		c := GenTreeCase(rt, mode)
 		Report(rt, "C04", "tree", c, CheckTree("C04", c, st))
@@ -26,7 +26,7 @@ func TestC07(t *testing.T) {
 
 func TestC14(t *testing.T) {
 	st := StatsFor("C14")
-	mode := TreeGenMode{Help: 7, Bad: 1, Garbage: 1, Version: 2, Mutate: 4, Policies: true, SubPol: 2, Warmup: 0}
+	mode := TreeGenMode{Help: 7, Bad: 1, Garbage: 1, Version: 2, Mutate: 4, Policies: true, SubPol: 2, Warmup: 6}
 	rapid.Check(t, func(rt *rapid.T) {
 		c := GenTreeCase(rt, mode)
 		Report(rt, "C14", "tree", c, CheckTree("C14", c, st))
